@@ -148,6 +148,12 @@ theorem hashFile_chunk_independent (h : Hasher) (content : Bytes) (size : Nat) (
     hashFileReads h (chunksOf size content) = hashData h content := by
   rw [hashFileReads_eq h _ (chunksOf_nonempty _ _), chunksOf_flatten _ hs]
 
+/-- streaming use: the digest observed after any number of `update` calls is the one-shot digest of the bytes fed
+so far (observing a digest is a function of the state, it does not change it) -/
+theorem streaming_prefix_digest (A : Alg) (cs : List Bytes) (k : Nat) :
+    A.final ((cs.take k).foldl A.update A.init) = A.digest (cs.take k).flatten := by
+  simp [foldl_update, Alg.digest]
+
 /-! ### (b) the read-once multi-format loop -/
 
 /-- every requested format (duplicates collapse as in a dict) gets exactly the single-format result -/
